@@ -1,3 +1,6 @@
+import TantivyModel.Proofs.SSTable.AddrStoreProofs
+import TantivyModel.Proofs.SSTable.Prefix
+import TantivyModel.Proofs.SSTable.MergeProofs
 import TantivyModel.Proofs.SSTable.Refine
 import TantivyModel.Proofs.SSTable.Writer
 import TantivyModel.Proofs.SSTable.Stream
@@ -5,6 +8,7 @@ import TantivyModel.Proofs.SSTable.OrdToTerm
 import TantivyModel.Proofs.SSTable.RangeDict
 import TantivyModel.Proofs.SSTable.DeltaScan
 import TantivyModel.Proofs.SSTable.Prune
+import TantivyModel.Proofs.SSTable.SearchDict
 /-!
 # C15 — Term dictionaries behave as ordered maps from byte strings
 
@@ -256,6 +260,47 @@ theorem C15_block_pruning_sound {σ} (A : Automaton σ) (hA : A.CanMatchSound) (
     (hacc : A.accepts key = true) : canBlockMatch A prevSep sep = true :=
   canBlockMatch_sound A hA prevSep sep key h1 h2 hacc
 
+theorem search_eq_filter {σ V} (A : Automaton σ) (m : Assoc V) (lo hi : Bound) :
+    search A m lo hi = m.filter (fun e => passes A lo hi e.1) := by
+  unfold search range passes
+  rw [List.filter_filter]
+  congr 1
+  funext e
+  cases matchLo lo e.1 <;> cases matchHi hi e.1 <;> cases A.accepts e.1 <;> rfl
+
+/-- `Dictionary::search(A).{ge,gt,le,lt}.into_stream()` — separator walk with the real
+`can_block_match_automaton` pruning, block-id range filter, `Streamer::advance` — for EVERY
+automaton whose `can_match` is sound, every sorted map, block length and bounds:
+the streamed keys and values are exactly `filter accepts` of the range, in order (no accepted key
+is ever dropped by pruning), and the ordinal reported with each entry is
+`first_term + its position among the entries READ`, i.e. among the entries of the blocks that
+were not pruned. That is the true ordinal only while no block has been skipped: the explicit
+deviation is the known finding C15:search-stream-term-ord-after-pruned-block
+(`C15_search_ordinal_counterexample`). -/
+theorem C15_automaton_stream {σ V} (A : Automaton σ) (hA : A.CanMatchSound) (blockLen : Nat)
+    (m : Assoc V) (hs : SortedMap m) (lo hi : Bound) :
+    ((build blockLen m).search A lo hi).map (fun p => (p.2.1, p.2.2)) = search A m lo hi ∧
+    (build blockLen m).search A lo hi =
+      ((((((build blockLen m).searchBlocks A lo hi).map (·.entries)).flatten).zipIdx
+          ((build blockLen m).firstTerm lo)).filter
+        (fun p => matchLo lo p.1.1 && matchHi hi p.1.1 && A.accepts p.1.1)).map
+        (fun p => (p.2, p.1.1, p.1.2)) := by
+  have v := build_view blockLen m hs
+  rw [search_eq_filter]
+  unfold Dict.search
+  rcases searchBlocks_pruned A hA blockLen m hs lo hi with hp | ⟨hnil, hnone⟩
+  · have hflat : ((build blockLen m).blockList.map (·.entries)).flatten = m := v.flat
+    have := pruned_stream A lo hi _ _ hp (by rw [hflat]; exact hs) ((build blockLen m).firstTerm lo)
+    rw [hflat] at this
+    exact ⟨this.2, this.1⟩
+  · rw [hnil]
+    simp only [List.map_nil, List.flatten_nil, scanSearch, List.zipIdx_nil, List.filter_nil]
+    refine ⟨?_, trivial⟩
+    symm
+    rw [List.filter_eq_nil_iff]
+    intro e he
+    simp [hnone e he]
+
 /-- the ordinal misreport is a property of the mechanism, not of an input: skipping a block
 makes the scan count from the wrong base -/
 theorem C15_search_ordinal_counterexample :
@@ -273,13 +318,110 @@ theorem C15_inverted_range_counterexample :
     range [(([1] : Key), 10), ([2], 20), ([3], 30)] (.incl [3]) (.excl [1]) = [] := by decide
 
 /- Still to prove (full statements; the harness compares these operations on every run):
-   C15_prefix_range           : isPrefixOf p k ↔ matchLo (prefixBounds p).1 k ∧ matchHi (prefixBounds p).2 k
-   C15_automaton_stream       : A.CanMatchSound → keys/values of (build L m).search A lo hi
-                                  = search A m lo hi: the assembly of C15_block_pruning_sound (proved),
-                                  C15_block_separators (proved) and C15_automaton_stream_partial (proved)
-                                  over the index walk `keptBlocks` + block-id range filter is not done yet
-   C15_merge                  : (∀ m ∈ ms, SortedMap m) → kwayMerge comb ms = mergeSpec comb ms
-                                  ∧ ordinal tables total and strictly monotone -/
+   C15_merge_round_tables     : the per-round tables `kmergeOrds` (mirror of TermMerger::advance +
+                                matching_segments) list, for input i, exactly the pairs
+                                (new ordinal, old ordinal) of `ordMap` (C15_term_ordinal_remap) -/
+
+example : kwayMerge List.sum [[(([1] : Key), 1), ([3], 3)], [([2], 20), ([3], 30)], []]
+    = [([1], 1), ([2], 20), ([3], 33)] := by decide
+example : ordMap [(([2] : Key), 20), ([3], 30)] (mergeSpec List.sum [[(([1] : Key), 1), ([3], 3)], [([2], 20), ([3], 30)]])
+    = [some 1, some 2] := by decide
+
+/-! ## merge -/
+
+/-- the k-way merge (`merge_sstable`: repeatedly the minimal head key, popped from every input that
+holds it, values combined) of any number of sorted inputs IS the specification merge:
+its keys are the sorted union of the input keys (strictly increasing, member iff member of some
+input), and the value of a key is `comb` of the values of the inputs holding it, in input order -/
+theorem C15_merge {V} (comb : List V → V) (ms : List (Assoc V)) (hs : ∀ m ∈ ms, SortedMap m) :
+    kwayMerge comb ms = mergeSpec comb ms ∧
+    SortedMap (mergeSpec comb ms) ∧
+    (∀ k, k ∈ keys (mergeSpec comb ms) ↔ ∃ m ∈ ms, k ∈ keys m) ∧
+    (∀ e ∈ mergeSpec comb ms, e.2 = comb (ms.filterMap (fun m => get m e.1))) := by
+  refine ⟨kmerge_eq comb _ ms hs (Nat.le_refl _), ?_, ?_, ?_⟩
+  · unfold SortedMap; rw [keys_mergeSpec]; exact unionKeys_sorted _
+  · intro k
+    rw [keys_mergeSpec, mem_unionKeys]
+    constructor
+    · rintro ⟨l, hl, hk⟩
+      obtain ⟨m, hm, rfl⟩ := List.mem_map.mp hl
+      exact ⟨m, hm, hk⟩
+    · rintro ⟨m, hm, hk⟩
+      exact ⟨keys m, List.mem_map_of_mem hm, hk⟩
+  · intro e he
+    unfold mergeSpec at he
+    obtain ⟨k, _, rfl⟩ := List.mem_map.mp he
+    rfl
+
+/-- old→new term-ordinal tables of a merge (what `TermMerger` / `merge_dict_column` hand to the
+column merge of C08, and what segment merges use to remap term ordinals): for every input, the
+table is total, maps old ordinal `i` to the new ordinal of the SAME key, and is strictly
+increasing (so order- and distinctness-preserving); jointly the tables cover every merged key -/
+theorem C15_term_ordinal_remap {V} (comb : List V → V) (ms : List (Assoc V))
+    (hs : ∀ m ∈ ms, SortedMap m) (m : Assoc V) (hm : m ∈ ms) :
+    ordMap m (mergeSpec comb ms) = m.map (fun e => some (ordOf (keys (mergeSpec comb ms)) e.1)) ∧
+    (∀ e ∈ m, (keys (mergeSpec comb ms))[ordOf (keys (mergeSpec comb ms)) e.1]? = some e.1) ∧
+    (m.map (fun e => ordOf (keys (mergeSpec comb ms)) e.1)).Pairwise (· < ·) ∧
+    (∀ k ∈ keys (mergeSpec comb ms), ∃ m' ∈ ms, ∃ e ∈ m', e.1 = k) := by
+  obtain ⟨h1, h2, h3⟩ := ordMap_spec comb ms hs m hm
+  refine ⟨h1, h2, h3, ?_⟩
+  intro k hk
+  rw [keys_mergeSpec, mem_unionKeys] at hk
+  obtain ⟨l, hl, hkl⟩ := hk
+  obtain ⟨m', hm', rfl⟩ := List.mem_map.mp hl
+  obtain ⟨e, he, rfl⟩ := List.mem_map.mp hkl
+  exact ⟨m', hm', e, he, rfl⟩
+
+/-! ## prefix streams -/
+
+/-- `Dictionary::prefix_range(p)`: the bounds it builds (`≥ p`, `< p` with trailing 0xFF bytes
+dropped and the last byte incremented; no upper bound if `p` is all 0xFF) select exactly the keys
+that start with `p`, for every prefix and key (incl. the empty prefix and 0xFF bytes) -/
+theorem C15_prefix_range (p k : Key) :
+    isPrefixOf p k = true ↔
+      (matchLo (prefixBounds p).1 k = true ∧ matchHi (prefixBounds p).2 k = true) :=
+  prefix_range_iff p k
+
+/-- hence a prefix stream of the dictionary is (a limited prefix of) `prefixed m p` -/
+theorem C15_prefix_stream {V} (m : Assoc V) (p : Key) :
+    range m (prefixBounds p).1 (prefixBounds p).2 = prefixed m p := by
+  unfold range prefixed
+  congr 1
+  funext e
+  have := C15_prefix_range p e.1
+  cases h1 : isPrefixOf p e.1 <;> cases h2 : matchLo (prefixBounds p).1 e.1 <;>
+    cases h3 : matchHi (prefixBounds p).2 e.1 <;> simp_all
+
+/-! ## block-address store (`index/v3.rs`) -/
+
+/-- the linear-prediction codec of the block-address store is lossless: with the bit width
+`find_best_slope` chooses (`compute_num_bits(max deviation) + 1`, for ANY slope — the slope
+heuristic only affects size), every element's shifted deviation fits the width and reads back as
+the original start offset / first ordinal -/
+theorem C15_addr_codec_roundtrip (slope : Nat) (els : List (Nat × Nat)) :
+    ∀ e ∈ els,
+      packVal slope (slopeBits slope els) e.1 e.2 < 2 ^ slopeBits slope els ∧
+      unpackVal slope (slopeBits slope els) e.1 (packVal slope (slopeBits slope els) e.1 e.2) = e.2 := by
+  intro e he
+  exact pack_unpack slope (slopeBits slope els) e.1 e.2 (by unfold slopeBits; omega)
+    (slopeBits_fits slope els e he)
+
+/-- the two-level `binary_search` of `binary_search_ord` over non-decreasing first ordinals: an
+exact hit, or the insertion point (all earlier first ordinals below the target, all later ones
+above) — which is the abstract "last block whose first ordinal is ≤ ord" of `Dict.locateOrd`
+after the `- 1` of the code -/
+theorem C15_addr_binary_search (f : Nat → Nat) (t n : Nat)
+    (hmono : ∀ a b, a ≤ b → b < n → f a ≤ f b) :
+    match binSearch (fun g => compare (f g) t) (n + 1) 0 n with
+    | .inl m => m < n ∧ f m = t
+    | .inr p => p ≤ n ∧ (∀ g, g < p → f g < t) ∧ (∀ g, p ≤ g → g < n → t < f g) :=
+  binSearch_spec f t n hmono (n + 1) 0 n (Nat.le_refl _) (Nat.zero_le _) (by omega)
+    (fun g hg => absurd hg (Nat.not_lt_zero g)) (fun g hg hgn => absurd hgn (by omega))
+
+/- Not proved for the address store (tied by cross-decoding real index bytes on every run):
+   the bit-level layout (`BitPacker::write` / `extract_bits`), the 36-byte metadata record, and
+   `Store.locateOrd = Dict.locateOrd` as a whole; `locate_with_key` goes through the FST, which is
+   a parameter with the contract "first key ≥ k". -/
 
 /-! ## insertion order (DESIGN §8, F6) -/
 
